@@ -32,7 +32,7 @@ def sh(cmd, cwd=None, env=None, timeout=None, input=None):
 class Ctx:
     def __init__(self, pid, tier, seed):
         self.pid, self.tier, self.seed = pid, tier, seed
-        self.dir = os.path.join(BUILD, pid)
+        self.dir = os.path.join(BUILD, pid + os.environ.get("VERIF_TAG", ""))
         os.makedirs(self.dir, exist_ok=True)
         self.log = []
         self.build_failures = []   # (what, output)
@@ -69,9 +69,18 @@ def build(ctx):
         if rc != 0:
             print("ERROR: /repo does not compile:\n" + out)
             return False
-        shutil.copyfile(os.path.join(REPO, "go.sum"), os.path.join(HARNESS, "go.sum"))
+        hsrc = HARNESS
+        if os.path.realpath(REPO) != "/repo":
+            # checking another tree (e.g. a scratch worktree carrying a seeded change): build a copy of
+            # the harness module whose `replace` points there
+            hsrc = os.path.join(ctx.dir, "harness-src")
+            shutil.rmtree(hsrc, ignore_errors=True)
+            shutil.copytree(HARNESS, hsrc)
+            gm = open(os.path.join(hsrc, "go.mod")).read().replace("=> /repo", "=> " + os.path.realpath(REPO))
+            open(os.path.join(hsrc, "go.mod"), "w").write(gm)
+        shutil.copyfile(os.path.join(REPO, "go.sum"), os.path.join(hsrc, "go.sum"))
         hbin = os.path.join(ctx.dir, "harness")
-        rc, out = sh(["go", "build", "-tags", "verif", "-o", hbin, "."], cwd=HARNESS, env=GOENV, timeout=600)
+        rc, out = sh(["go", "build", "-tags", "verif", "-o", hbin, "."], cwd=hsrc, env=GOENV, timeout=600)
         if rc != 0:
             ctx.build_failures.append(("harness build against /repo (tie cannot be run)", out))
             return True
@@ -141,19 +150,36 @@ def audit(ctx):
     if missing:
         ctx.build_failures.append(("required theorems missing", "\n".join(missing)))
     # source-level ban (sorry/native_decide/... outside comments)
-    banned = grep_banned()
+    banned = grep_banned([prop["lean_module"]] + prop.get("tie_modules", []))
     if banned:
         ctx.build_failures.append(("banned constructs in Lean sources", "\n".join(banned)))
 
 
-def grep_banned():
+def lean_closure(mods):
+    """source files of the given modules and everything of LispModel they import, transitively"""
+    seen, todo = set(), list(mods)
+    while todo:
+        m = todo.pop()
+        if m in seen or not m.startswith("LispModel"):
+            continue
+        path = os.path.join(LEAN, *m.split(".")) + ".lean"
+        if not os.path.exists(path):
+            continue
+        seen.add(m)
+        for line in open(path):
+            mm = re.match(r"\s*import\s+(\S+)", line)
+            if mm:
+                todo.append(mm.group(1))
+    return sorted(os.path.join(LEAN, *m.split(".")) + ".lean" for m in seen)
+
+
+def grep_banned(mods):
     hits = []
     pat = re.compile(r"\b(sorry|admit|native_decide|bv_decide|implemented_by|unsafe)\b|^axiom\s|maxHeartbeats 0")
-    for root, _, files in os.walk(os.path.join(LEAN, "LispModel")):
-        for fn in files:
-            if not fn.endswith(".lean") or fn == "Audit.lean":
+    if True:
+        for p in lean_closure(mods):
+            if p.endswith("Audit.lean"):
                 continue
-            p = os.path.join(root, fn)
             text = open(p).read()
             # strip block comments and line comments
             text = re.sub(r"/-.*?-/", lambda m: "\n" * m.group(0).count("\n"), text, flags=re.S)
@@ -187,7 +213,9 @@ def run_cases(ctx, engine, n=0, seed=1, cases_file=None, origin="generated", tag
         cmd += ["-cases", cases_file]
     if extra:
         cmd += extra
-    env = dict(os.environ, GOMEMLIMIT="6GiB")
+    scratch = os.path.join(ctx.dir, "scratch")
+    os.makedirs(scratch, exist_ok=True)
+    env = dict(os.environ, GOMEMLIMIT="6GiB", VERIF_SCRATCH=scratch)
     p = subprocess.run(cmd, stdout=subprocess.PIPE, stderr=subprocess.PIPE, text=True, env=env, timeout=7200)
     stats = {}
     if p.returncode != 0:
@@ -219,6 +247,14 @@ def run_cases(ctx, engine, n=0, seed=1, cases_file=None, origin="generated", tag
     return res, stats
 
 
+def _prop_fields(obs):
+    """result, trace and definitions of an evaluator observation (poll counts, depth marks and the
+    debugger's call log are tie-only fields)"""
+    obs = re.sub(r" (marks|calls)=\[[^\]]*\]", "", obs)
+    obs = re.sub(r" ticks=\d+", "", obs)
+    return obs
+
+
 def go_core(obs):
     """observation without the harness-side oracle verdict (`\t!…`)"""
     return obs.split("\t!")[0]
@@ -231,6 +267,12 @@ def prop_violation(c, prop=None):
         return "go observation matches /%s/: %s" % (rule, c.go[:200])
     if (prop or {}).get("ignore_spec", {}).get(c.engine):
         return None
+    if c.engine in (prop or {}).get("model_is_spec", []) and c.model not in ("-", "<missing>"):
+        # the evaluator model is the definition of the language for this property: a difference in
+        # result, thrown value, ordered effects or final definitions is a violation on this input
+        g, m = _prop_fields(go_core(c.go)), _prop_fields(c.model)
+        if g != m and not c.model.startswith("OOF") and not c.go.startswith("HANG"):
+            return "go=%s definition=%s" % (g[:300], m[:300])
     if "\t!" in c.go:
         return c.go.split("\t!", 1)[1]
     if c.spec != "-" and go_core(c.go) != c.spec:
@@ -244,6 +286,100 @@ def corr_mismatch(c):
     if go_core(c.go) != c.model:
         return "go=%s model=%s" % (go_core(c.go)[:300], c.model[:300])
     return None
+
+
+# ------------------------------------------------------------------ shrinking of a violating case
+
+def _subterms(toks):
+    """(start, end) index pairs of every balanced protocol sub-term in a token list"""
+    out, stack = [], []
+    i = 0
+    while i < len(toks):
+        t = toks[i]
+        if t == "(":
+            stack.append(i)
+        elif t == ")":
+            if stack:
+                out.append((stack.pop(), i + 1))
+        elif i > 0 and toks[i - 1] == "(":
+            pass  # the tag
+        else:
+            out.append((i, i + 1))
+        i += 1
+    return out
+
+
+def _ast_candidates(payload):
+    if " | " in payload:
+        head, ast = payload.rsplit(" | ", 1)
+        head += " | "
+    else:
+        head, ast = "", payload
+    toks = ast.split(" ")
+    if not toks or toks.count("(") != toks.count(")"):
+        return []
+    cands = set()
+    subs = _subterms(toks)
+    for a, b in subs:
+        if b - a == len(toks):
+            continue
+        cands.add(" ".join(toks[:a] + toks[b:]))            # delete
+        if b - a > 1:
+            cands.add(" ".join(toks[:a] + ["N"] + toks[b:]))  # replace by nil
+            # replace a collection by each of its children
+            for c, d in subs:
+                if a < c and d < b and (d - c) < (b - a) - 2:
+                    cands.add(" ".join(toks[:a] + toks[c:d] + toks[b:]))
+    return [head + c for c in cands if c.strip()]
+
+
+def _hex_candidates(payload):
+    fields = payload.split(" ")
+    idx = None
+    for i, f in enumerate(fields):
+        body = f[1:] if f.startswith("x") else f
+        if len(body) >= 4 and len(body) % 2 == 0 and all(ch in "0123456789abcdef" for ch in body):
+            idx = i
+            break
+    if idx is None:
+        return []
+    f = fields[idx]
+    pre, body = ("x", f[1:]) if f.startswith("x") else ("", f)
+    n = len(body) // 2
+    cands = set()
+    step = max(1, n // 64)
+    for k in (n // 2, n // 4, 8, 4, 2, 1):
+        if k < 1 or k >= n:
+            continue
+        for a in range(0, n - k + 1, max(step, k if k > 4 else 1)):
+            cands.add(body[:2 * a] + body[2 * (a + k):])
+    return [" ".join(fields[:idx] + [pre + c] + fields[idx + 1:]) for c in cands]
+
+
+def shrink(ctx, prop, case, key, rounds=10, budget=400):
+    """Greedy delta debugging: smaller payloads that still violate the property with the same key."""
+    best = case
+    for rnd in range(rounds):
+        cands = _ast_candidates(best.payload) or _hex_candidates(best.payload)
+        cands = [c for c in cands if len(c) < len(best.payload)]
+        if not cands:
+            break
+        cands = sorted(set(cands), key=len)[:budget]
+        f = os.path.join(ctx.dir, "shrink.%s.cases" % best.engine)
+        with open(f, "w") as fh:
+            fh.write("\n".join(cands) + "\n")
+        try:
+            cs, _ = run_cases(ctx, best.engine, cases_file=f, origin="shrunk", tag="s")
+        except Exception:
+            break
+        good = [c for c in cs if prop_violation(c, prop) and classify.violation_key(ctx.pid, c) == key]
+        if not good:
+            break
+        good.sort(key=lambda c: len(c.payload))
+        if len(good[0].payload) >= len(best.payload):
+            break
+        best = good[0]
+    return best
 
 
 # ------------------------------------------------------------------ steps 3/4: decision, evidence
@@ -325,6 +461,17 @@ def main(argv):
         distinct = {}
         for key, pv, c in violations:
             distinct.setdefault(key, (pv, c))
+        # shrink the representative of each distinct key (at most 5 keys)
+        for key in list(distinct)[:5]:
+            pv, c = distinct[key]
+            try:
+                small = shrink(ctx, prop, c, key)
+            except Exception as ex:  # shrinking is best effort
+                small = c
+            if small is not c:
+                distinct[key] = (prop_violation(small, prop) or pv, small)
+        violations = [(k, pv, c) for k, (pv, c) in distinct.items()] + violations
+        violations.sort(key=lambda v: len(v[2].payload))
         body = {"property": a.pid, "kind": "property-violated-on-concrete-input",
                 "first": dict(distinct[violations[0][0]][1].as_dict(), why=violations[0][1], key=violations[0][0]),
                 "distinct_keys": [dict(c.as_dict(), why=pv, key=k) for k, (pv, c) in list(distinct.items())[:20]],
